@@ -122,3 +122,321 @@ package netpoll
 //@        || (typeis(result, *randomLB) && sameslice(as(result, *randomLB).polls, polls) && as(result, *randomLB).pollSize == len(polls))
 //@   ensures lb == 1 ==> typeis(result, *randomLB)
 //@   ensures lb == 0 ==> typeis(result, *roundRobinLB)
+
+// ---- the epoll poller (poll_default_linux.go, poll_default.go, net_io.go) : C10 C11 ----
+// The poller's private state is written only by the functions that run on the poller's own goroutine (Wait and what it calls) or that
+// build the poller before it is published; user callbacks and other goroutines cannot change it.  Checked by a scan of the SSA.
+//@ owned C10 C11 : pollArgs.size pollArgs.caps pollArgs.events pollArgs.barriers pollArgs.hups defaultPoll.buf barrier.bs barrier.ivs epollevent.events epollevent.data
+//@   by (*defaultPoll).Wait (*pollArgs).reset (*defaultPoll).handler (*defaultPoll).appendHup (*defaultPoll).onhups openDefaultPoll
+
+//@ bind C10 C11 : defaultPoll.Handler = (*defaultPoll).handler in openDefaultPoll
+//@ bind C10 C11 : defaultPoll.Reset = (*pollArgs).reset via pollArgs in openDefaultPoll
+
+// q.live: the poller q is running and its two descriptors (epoll, eventfd) are open; only handler closes them, when the close message arrives
+//@ ghost field defaultPoll.live bool threadlocal
+//@ owned C10 C11 : defaultPoll.fd defaultPoll.wop defaultPoll.opcache by openDefaultPoll
+//@ worldrely forall q *defaultPoll {q.live} :: q.live ==> q.wop.FD == old(q.wop.FD) && fdopen[q.fd] == old(fdopen[q.fd]) && fdopen[q.wop.FD] == old(fdopen[q.wop.FD])
+//@   && closecnt[q.fd] == old(closecnt[q.fd]) && closecnt[q.wop.FD] == old(closecnt[q.wop.FD])
+
+// while the do() token of a slot is held nobody resets or re-initialises the slot: reset() runs only after unused(), which waits for the token
+//@ worldrely forall o *FDOperator {o.opheld} :: o.opheld ==> o.FD == old(o.FD) && o.Inputs == old(o.Inputs) && o.InputAck == old(o.InputAck) && o.Outputs == old(o.Outputs)
+//@   && o.OutputAck == old(o.OutputAck) && o.OnRead == old(o.OnRead) && o.OnWrite == old(o.OnWrite) && o.OnHup == old(o.OnHup) && o.poll == old(o.poll) && o.state == old(o.state)
+
+// the detach counter does not wrap (one Control(PollDetach) per hang-up event and one per close)
+//@ worldrely forall o *FDOperator {o.detached} :: o.detached >= 0 && o.detached < 2147483000
+
+// per-event ghost state of handler (reset at the head of every iteration by the loop invariant)
+//@ ghost global hPendingAck bool
+//@ ghost global hLastRead int
+//@ ghost global hAcked int
+//@ ghost global hReadall bool
+//@ ghost global hLastSent int
+//@ ghost global hOutPending bool
+
+// the callbacks of a registered FDOperator (fd_operator.go): assumed contracts for operators supplied by users of the Poll API;
+// netpoll's own operators (connection.inputs/inputAck/outputs/outputAck/onHup, server.OnRead) satisfy them
+//@ functype field netpoll.FDOperator.Inputs
+//@   params vs
+//@   results rs
+//@   ensures len(rs) <= len(vs)
+//@   modifies world
+//@ functype field netpoll.FDOperator.InputAck
+//@   params n
+//@   results err
+//@   modifies world
+//@ functype field netpoll.FDOperator.Outputs
+//@   params vs
+//@   results rs zc
+//@   ensures len(rs) <= len(vs)
+//@   modifies world
+//@ functype field netpoll.FDOperator.OutputAck
+//@   params n
+//@   results err
+//@   modifies world
+//@ functype field netpoll.FDOperator.OnRead
+//@   params q
+//@   results err
+//@   modifies world
+//@ functype field netpoll.FDOperator.OnWrite
+//@   params q
+//@   results err
+//@   modifies world
+
+//@ func (*defaultPoll).getOperator
+//@   trusted reads back the *FDOperator stored in the epoll event data at registration (unsafe pointer cast)
+//@ func (*defaultPoll).setOperator
+//@   trusted stores the *FDOperator into the epoll event data (unsafe pointer cast)
+
+// readv(2): fills a prefix of the vector; (0, nil) means end of stream
+//@ func readv
+//@   trusted raw system call through unsafe pointers (sys_exec.go); assumed kernel contract
+//@   requires len(ivs) >= len(bs)
+//@   ensures err != nil ==> typeis(err, syscall.Errno) && err#val >= 1 && err#val < 256
+//@   modifies mem, mem:[]byte, mem:syscall.Iovec
+
+//@ func ioread
+//@   property C04 C11
+//@   requires len(ivs) >= len(bs)
+//@   ensures err != nil ==> errkind(err, ErrEOF) && n == 0 || typeis(err, syscall.Errno)
+//@   ensures err == nil ==> n >= 0 || true
+//@   modifies mem, mem:[]byte, mem:syscall.Iovec
+
+//@ func iosend
+//@   property C04 C11
+//@   requires len(ivs) >= len(bs)
+//@   ensures err != nil ==> typeis(err, syscall.Errno) && err#val != 11
+//@   modifies mem:[]byte, mem:syscall.Iovec
+
+//@ func (*defaultPoll).detach
+//@   property C10 C11
+//@   requires operator != nil && operator.poll != nil && operator.detached >= 0 && operator.detached < 2147483000
+//@   ensures operator.detached == old(operator.detached) + 1
+//@   modifies operator.detached, FDOperator.state
+
+//@ func (*defaultPoll).appendHup
+//@   property C10 C11
+//@   requires operator != nil && operator.opheld
+//@   requires operator.poll != nil
+//@   requires operator.detached >= 0 && operator.detached < 2147483000
+//@   ensures !operator.opheld && operator.detached == old(operator.detached) + 1 && len(p.hups) == old(len(p.hups)) + 1
+//@   ensures forall o *FDOperator :: o != operator ==> o.opheld == old(o.opheld)
+//@   modifies p.hups, operator.detached, FDOperator.state, operator.opheld, mem:*
+
+//@ func (*defaultPoll).onhups
+//@   property C11
+//@   modifies p.hups
+
+// readall: drains the descriptor after a hang-up; every ioread result is acknowledged before the next Inputs
+//@ func readall
+//@   property C11
+//@   requires op != nil && op.opheld && op.Inputs != nil && op.InputAck != nil && len(br.ivs) >= len(br.bs) && !hPendingAck
+//@   ensures hAcked == old(hAcked) + total && !hPendingAck
+//@   modifies world, hAcked, hLastRead, hPendingAck
+//@   loop 1 invariant hAcked == old(hAcked) + total && !hPendingAck
+//@   loop 2 invariant hAcked == old(hAcked) + total && !hPendingAck && len(bs) <= len(br.bs)
+//@   ghost after call ioread#1: hLastRead = result0; hPendingAck = true
+//@   ghost before call dyn.InputAck#1: assert hPendingAck && arg0 == hLastRead; hPendingAck = false; hAcked = hAcked + arg0
+
+// handler: one batch of fetched events.
+//  - the slot token (do/done) of every event's operator is released on every path (no slot stays locked: C10), at most one appendHup per event
+//  - every ioread result is acknowledged with exactly that count before anything else happens to the operator; same for iosend/OutputAck
+//  - a hang-up is queued only when nothing was read in this wake-up, and after readall drained the descriptor when it was readable
+//  - the close message closes the poller's two descriptors exactly once and reports closed
+//@ func (*defaultPoll).handler
+//@   property C10 C11
+//@   requires len(events) <= len(p.barriers) && len(p.buf) >= 1 && p.wop != nil
+//@   requires forall k int :: 0 <= k && k < len(p.barriers) ==> len(p.barriers[k].bs) == len(p.barriers[k].ivs)
+//@   requires forall o *FDOperator :: !o.opheld
+//@   requires p.live && fdopen[p.fd] && fdopen[p.wop.FD] && p.fd != p.wop.FD
+//@   ensures forall o *FDOperator :: !o.opheld
+//@   ensures !hPendingAck && !hOutPending
+//@   ensures closed ==> !p.live && !fdopen[p.fd] && !fdopen[old(p.wop.FD)] && closecnt[p.fd] == old(closecnt[p.fd]) + 1 && closecnt[old(p.wop.FD)] == old(closecnt[p.wop.FD]) + 1
+//@   ensures !closed ==> p.live && fdopen[p.fd] && fdopen[p.wop.FD]
+//@   modifies world, p.hups, p.trigger, p.live, FDOperator.opheld, FDOperator.state, FDOperator.detached, fdopen, closecnt, mem:*, hAcked, hLastRead, hPendingAck, hReadall, hLastSent, hOutPending
+//@   loop 1 invariant -1 <= rangeindex && forall o *FDOperator :: !o.opheld
+//@   loop 1 invariant !hPendingAck && !hOutPending && p.live && fdopen[p.fd] && fdopen[p.wop.FD] && p.fd != p.wop.FD && p.wop.FD == old(p.wop.FD)
+//@   loop 1 invariant closecnt[p.fd] == old(closecnt[p.fd]) && closecnt[p.wop.FD] == old(closecnt[p.wop.FD])
+//@   ghost at entry: hPendingAck = false; hOutPending = false
+//@   note a registered slot (state 1, so that do() succeeds) other than the poller's own eventfd slot was registered through FDOperator.Control, which requires poll != nil,
+//@     and is reset only after unused(); the detach counter is far from wrapping when the event is fetched
+//@   ghost after call (*defaultPoll).getOperator#1: assume result == nil || (result.detached >= 0 && result.detached < 2147483000)
+//@   ghost (*FDOperator).do/after call atomic.CompareAndSwapInt32#1: assume result && operator.FD != p.wop.FD ==> operator.poll != nil && (operator.Inputs != nil ==> operator.InputAck != nil) && (operator.Outputs != nil ==> operator.OutputAck != nil)
+//@   ghost after call ioread#1: hLastRead = result0; hPendingAck = true; hReadall = false
+//@   ghost before call dyn.InputAck#1: assert hPendingAck && arg0 == hLastRead; hPendingAck = false
+//@   ghost after call readall#1: hReadall = true
+//@   ghost before call (*defaultPoll).appendHup#1: assert !hPendingAck && !hOutPending
+//@   ghost before call (*defaultPoll).appendHup#2: assert !hPendingAck && !hOutPending && totalRead == 0 && (!(triggerRead && operator.Inputs != nil) || hReadall)
+//@   ghost before call (*defaultPoll).appendHup#3: assert !hPendingAck && !hOutPending
+//@   ghost before call (*defaultPoll).appendHup#4: assert !hPendingAck && !hOutPending
+//@   ghost after call iosend#1: hLastSent = result0; hOutPending = true
+//@   ghost before call dyn.OutputAck#1: assert hOutPending && arg0 == hLastSent; hOutPending = false
+//@   ghost after call syscall.Close#2: p.live = false
+
+// ---- registration and the wake-up descriptor ----
+//@ func EpollCreate
+//@   trusted raw epoll_create1(2); assumed kernel contract: a fresh descriptor on success
+//@   ensures err == nil ==> fd >= 0 && fdopen[fd] && !old(fdopen[fd])
+//@   ensures err != nil ==> typeis(err, syscall.Errno) && err#val >= 1 && err#val < 256 && fdopen[fd] == old(fdopen[fd])
+//@   ensures forall x int :: x != fd ==> fdopen[x] == old(fdopen[x])
+//@   modifies fdopen
+//@ func EpollCtl
+//@   trusted raw epoll_ctl(2) through an unsafe pointer; assumed kernel contract
+//@   ensures err != nil ==> typeis(err, syscall.Errno) && err#val >= 1 && err#val < 256
+//@ func EpollWait
+//@   trusted raw epoll_wait(2) through an unsafe pointer; assumed kernel contract: fills at most len(events) entries
+//@   requires len(events) >= 1
+//@   ensures n <= len(events) && (err != nil ==> n <= 0)
+//@   ensures err != nil ==> typeis(err, syscall.Errno) && err#val >= 1 && err#val < 256
+//@   modifies epollevent.events, epollevent.data
+
+//@ func (*FDOperator).inuse
+//@   property C10
+//@   ensures op.opheld == old(op.opheld)
+//@   modifies op.state
+//@   loop 1 invariant op.opheld == old(op.opheld)
+//@ func (*FDOperator).unused
+//@   property C10
+//@   requires !op.opheld
+//@   ensures !op.opheld && op.state == 0
+//@   modifies op.state
+//@   loop 1 invariant !op.opheld
+
+//@ func (*defaultPoll).Control
+//@   property C10 C11
+//@   implements Poll.Control
+//@   results err
+//@   requires operator != nil
+//@   ensures err != nil ==> typeis(err, syscall.Errno) && err#val >= 1 && err#val < 256
+//@   modifies FDOperator.state
+
+//@ func (*pollArgs).reset
+//@   property C11
+//@   requires size >= 0 && caps >= 0
+//@   ensures a.size == size && a.caps == caps && len(a.events) == size && len(a.barriers) == size
+//@   ensures forall k int :: 0 <= k && k < size ==> len(a.barriers[k].bs) == caps && len(a.barriers[k].ivs) == caps
+//@   modifies a.size, a.caps, a.events, a.barriers, barrier.bs, barrier.ivs
+//@   loop 1 invariant -1 <= rangeindex && a.size == size && a.caps == caps && len(a.events) == size && len(a.barriers) == size
+//@   loop 1 invariant forall k int :: 0 <= k && k <= rangeindex ==> len(a.barriers[k].bs) == caps && len(a.barriers[k].ivs) == caps
+
+// evwrites[n]: write(2) calls issued on descriptor n (the eventfd counter is what wakes epoll_wait)
+//@ ghost map evwrites int
+//@ func (*defaultPoll).Trigger
+//@   property C11
+//@   requires p.wop != nil
+//@   ensures old(p.trigger) == 0 ==> evwrites[p.wop.FD] == old(evwrites[p.wop.FD]) + 1
+//@   ensures old(p.trigger) != 0 && old(p.trigger) < 4294967295 ==> evwrites[p.wop.FD] == old(evwrites[p.wop.FD])
+//@   modifies p.trigger, evwrites, mem:[]byte
+//@ func (*defaultPoll).Close
+//@   property C11
+//@   requires p.wop != nil
+//@   ensures evwrites[p.wop.FD] == old(evwrites[p.wop.FD]) + 1
+//@   modifies evwrites, mem:[]byte
+
+// Wait: the loop. Fetched events are dispatched by Handler before anything else happens; the slot cache is spliced (opcache.free) only
+// between batches; the loop ends when Handler reports the close message, with both descriptors closed.
+//@ ghost global hFetched bool
+//@ func (*defaultPoll).Wait
+//@   property C10 C11
+//@   requires p.wop != nil && len(p.buf) >= 1 && p.opcache != nil && p.live && fdopen[p.fd] && fdopen[p.wop.FD] && p.fd != p.wop.FD
+//@   requires forall o *FDOperator :: !o.opheld
+//@   requires !p.opcache.ocl && !p.opcache.ofl
+//@   ensures forall o *FDOperator :: !o.opheld
+//@   ensures err == nil ==> !p.live && !fdopen[p.fd] && !fdopen[old(p.wop.FD)]
+//@   ensures !hFetched
+//@   modifies world, p.size, p.caps, p.events, p.barriers, barrier.bs, barrier.ivs, epollevent.events, epollevent.data, p.hups, p.trigger, p.live, FDOperator.opheld, FDOperator.state, FDOperator.detached, fdopen, closecnt, mem:*, hAcked, hLastRead, hPendingAck, hReadall, hLastSent, hOutPending, hFetched
+//@   loop 1 invariant p.size == len(p.events) && p.size == len(p.barriers) && p.size >= 128 && n <= p.size && !hFetched && !p.opcache.ocl && !p.opcache.ofl
+//@   loop 1 invariant forall k int :: 0 <= k && k < len(p.barriers) ==> len(p.barriers[k].bs) == len(p.barriers[k].ivs)
+//@   loop 1 invariant forall o *FDOperator :: !o.opheld
+//@   loop 1 invariant p.live && fdopen[p.fd] && fdopen[p.wop.FD] && p.fd != p.wop.FD && p.wop.FD == old(p.wop.FD)
+//@   ghost at entry: hFetched = false
+//@   ghost after call EpollWait#1: hFetched = result0 > 0
+//@   ghost after call dyn.Handler#1: hFetched = false
+//@   ghost before call (*operatorCache).free#1: assert !hFetched
+//@   ghost before call dyn.Reset#1: assert !hFetched
+
+// ---- the slot cache (fd_operator_cache.go): C10 ----
+// o.slot: 0 = on the free list (first/next), 1 = handed out by alloc and owned by exactly one connection (the ghost token o.owned),
+//         2 = marked freeable, waiting on freelist until the poller splices it back between two batches
+// o.rank: position on the free list counted from its end; o.cacheof: the cache the slot belongs to
+//@ ghost field FDOperator.slot int
+//@ ghost field FDOperator.rank int
+//@ ghost field FDOperator.cacheof *operatorCache
+//@ ghost field operatorCache.ocl bool threadlocal
+//@ ghost field operatorCache.ofl bool threadlocal
+// lock invariants: ocL is protected by `locked` (the free list and the slot table), ocF by `freelocked` (the freelist).  ocF also reads the slot
+// table; that is stable for a thread holding only freelocked because the table is append-only and slots leave state 2 only under freelocked.
+//@ lockword operatorCache.locked token ocl acquire 0 1 release 0 inv ocL
+//@ lockword operatorCache.freelocked token ofl acquire 0 1 release 0 inv ocF
+//@ pred ocfree(c *operatorCache) = (c.first != nil ==> c.first.cacheof == c && c.first.slot == 0)
+//@     && (forall o *FDOperator {o.next} :: o != nil && o.cacheof == c && o.slot == 0 ==> o.detached == 0 && !o.owned && o.rank >= 1 && (o.next == nil <==> o.rank == 1)
+//@           && (o.next != nil ==> o.next.cacheof == c && o.next.slot == 0 && o.next.rank == o.rank - 1))
+//@     && (forall o *FDOperator {o.rank} :: o != nil && o.cacheof == c && o.slot == 0 ==> c.first != nil && o.rank <= c.first.rank)
+//@     && (forall o *FDOperator, o2 *FDOperator {o.rank, o2.rank} :: o != nil && o2 != nil && o.cacheof == c && o2.cacheof == c && o.slot == 0 && o2.slot == 0 && o.rank == o2.rank ==> o == o2)
+//@ pred occache(c *operatorCache) = (forall o *FDOperator {o.cacheof} :: o != nil && o.cacheof == c ==> 0 <= o.index && o.index < len(c.cache) && c.cache[o.index] == o && allocated(o))
+//@     && (forall i int {c.cache[i]} :: 0 <= i && i < len(c.cache) ==> c.cache[i] != nil && c.cache[i].cacheof == c && c.cache[i].index == i)
+//@ pred ocL(c *operatorCache) = ocfree(c) && occache(c)
+//@ pred ocF(c *operatorCache) = (forall k int {c.freelist[k]} :: 0 <= k && k < len(c.freelist) ==> 0 <= c.freelist[k] && c.freelist[k] < len(c.cache) && c.cache[c.freelist[k]].slot == 2 && c.cache[c.freelist[k]].detached == 0 && !c.cache[c.freelist[k]].owned)
+//@     && (forall j int, k int {c.freelist[j], c.freelist[k]} :: 0 <= j && j < k && k < len(c.freelist) ==> c.freelist[j] != c.freelist[k])
+// an owned slot is in state 1 and stays registered in the (append-only) table of its cache
+//@ worldrely forall o *FDOperator {o.owned} :: o.owned ==> o.slot == 1 && o.cacheof != nil && 0 <= o.index && o.index < len(o.cacheof.cache) && o.cacheof.cache[o.index] == o
+
+//@ func lock
+//@   inline
+//@   loop 1 invariant true
+//@ func unlock
+//@   inline
+//@ func (*FDOperator).reset
+//@   inline
+
+// alloc: the returned slot was on the free list (or is new) - never one that is handed out or waiting on freelist
+//@ ghost global ocBase int
+//@ func (*operatorCache).alloc
+//@   property C10
+//@   requires !c.ocl
+//@   ensures !c.ocl && result != nil && result.cacheof == c && result.slot == 1 && result.owned && result.detached == 0
+//@   ensures forall o *FDOperator :: o != result && wasalloc(o) ==> o.slot == old(o.slot) && o.cacheof == old(o.cacheof) && o.owned == old(o.owned)
+//@   modifies c.first, c.cache, c.locked, c.ocl, FDOperator.slot, FDOperator.rank, FDOperator.cacheof, FDOperator.next, FDOperator.owned, mem:*FDOperator, ocBase
+//@   loop 1 invariant c.ocl && ocL(c) && index == len(c.cache) && len(c.cache) == ocBase + i && ocBase < 2000000000 && i <= 4096 && (i > 0 ==> c.first != nil)
+//@   note the slot index is an int32: fewer than 2^31 slots are ever created
+//@   ghost after call lock#1: assume len(c.cache) < 2000000000; ocBase = len(c.cache)
+//@   loop 1 invariant forall o *FDOperator :: wasalloc(o) ==> o.slot == old(o.slot) && o.cacheof == old(o.cacheof) && o.owned == old(o.owned)
+//@   ghost after store next#1: pd.cacheof = c; pd.slot = 0; pd.rank = ite(pd.next == nil, 1, pd.next.rank + 1)
+//@   ghost before call unlock#1: assert op.slot == 0 && !op.owned; op.slot = 1; op.owned = true
+
+//@ func (*defaultPoll).Alloc
+//@   property C10
+//@   implements Poll.Alloc
+//@   ghost at entry: assume p.opcache != nil && !p.opcache.ocl
+//@   modifies FDOperator.owned, operatorCache.first, operatorCache.cache, operatorCache.locked, operatorCache.ocl, FDOperator.slot, FDOperator.rank, FDOperator.cacheof, FDOperator.next, FDOperator.poll, mem:*FDOperator
+
+// freeable: waits for the do()/done() token, resets the slot and queues it; the slot does not go back to the free list here
+//@ func (*operatorCache).freeable
+//@   property C10
+//@   requires op != nil && op.owned && !op.opheld && !c.ofl && op.cacheof == c
+//@   ensures !op.owned && op.slot == 2 && op.state == 0 && op.poll == nil && op.FD == 0 && op.Inputs == nil && op.OnRead == nil && op.detached == 0
+//@   ensures forall o *FDOperator :: o != op ==> o.slot == old(o.slot) && o.owned == old(o.owned) && o.next == old(o.next)
+//@   ensures op.next == old(op.next) && c.first == old(c.first)
+//@   modifies op.owned, c.freelist, c.freelocked, c.ofl, op.slot, op.state, mem:int32, op.FD, op.OnRead, op.OnWrite, op.OnHup, op.Inputs, op.InputAck, op.Outputs, op.OutputAck, op.poll, op.detached
+//@   ghost at entry: assume op.slot == 1 && 0 <= op.index && op.index < len(c.cache) && c.cache[op.index] == op
+//@   ghost before call unlock#1: op.slot = 2; op.owned = false
+
+//@ func (*defaultPoll).Free
+//@   property C10
+//@   implements Poll.Free
+//@   requires operator != nil && operator.owned && !operator.opheld
+//@   ghost at entry: assume p.opcache != nil && !p.opcache.ofl && operator.cacheof == p.opcache
+//@   modifies operator.owned, operatorCache.freelist, operatorCache.freelocked, operatorCache.ofl, FDOperator.slot, FDOperator.state, mem:int32,
+//@     FDOperator.FD, FDOperator.OnRead, FDOperator.OnWrite, FDOperator.OnHup, FDOperator.Inputs, FDOperator.InputAck, FDOperator.Outputs, FDOperator.OutputAck, FDOperator.poll, FDOperator.detached
+
+// free: splices the waiting slots back; only the poller calls it, between two batches (Wait asserts !hFetched before the call)
+//@ func (*operatorCache).free
+//@   property C10
+//@   requires !c.ocl && !c.ofl && !hFetched
+//@   ensures !c.ocl && !c.ofl
+//@   ensures forall o *FDOperator :: o.owned == old(o.owned) && (o.slot == old(o.slot) || (old(o.slot) == 2 && o.slot == 0 && o.cacheof == c))
+//@   modifies c.first, c.freelist, c.locked, c.freelocked, c.ocl, c.ofl, FDOperator.next, FDOperator.slot, FDOperator.rank
+//@   loop 1 invariant c.ocl && c.ofl && ocL(c) && -1 <= rangeindex && sameslice(c.freelist, old(c.freelist))
+//@   loop 1 invariant forall k int {c.freelist[k]} :: rangeindex < k && k < len(c.freelist) ==> 0 <= c.freelist[k] && c.freelist[k] < len(c.cache) && c.cache[c.freelist[k]].slot == 2 && c.cache[c.freelist[k]].detached == 0 && !c.cache[c.freelist[k]].owned
+//@   loop 1 invariant forall j int, k int {c.freelist[j], c.freelist[k]} :: 0 <= j && j < k && k < len(c.freelist) ==> c.freelist[j] != c.freelist[k]
+//@   loop 1 invariant forall o *FDOperator :: o.owned == old(o.owned) && (o.slot == old(o.slot) || (old(o.slot) == 2 && o.slot == 0 && o.cacheof == c))
+//@   ghost after store first#1: op.slot = 0; op.rank = ite(op.next == nil, 1, op.next.rank + 1)
